@@ -189,6 +189,8 @@ type NodeEnv struct {
 	nopen  int
 	Ctl    *crashCtl
 	OpRepo *oprepo.BaseOperationRepo
+
+	sharedBoard storage.Storage
 }
 
 func NewNodeEnv(base, user string) *NodeEnv {
@@ -296,6 +298,20 @@ func (e *NodeEnv) applyCrashResult(d *dto.OperationDTO, k int) {
 		e.Node.ProcessOperation(d)
 	}()
 	e.RestartInPlace()
+}
+
+// BoardShared re-points the node at a shared board file (cluster scenarios); idempotent.
+func (e *NodeEnv) BoardShared(file, lock string) storage.Storage {
+	if e.sharedBoard == nil {
+		b, err := file_storage.NewFileStorage(file, lock)
+		if err != nil {
+			panic(err)
+		}
+		e.sharedBoard = b
+		e.Board = b
+		e.Node = e.buildNode(crashState{e.St, e.Ctl}, crashBoard{b, e.Ctl})
+	}
+	return e.sharedBoard
 }
 
 // Restart simulates a process restart on a crash image of the state directory.
